@@ -10,6 +10,7 @@ import (
 	"github.com/jsightapi/jsight-schema-core/notations/jschema/ischema"
 
 	"github.com/jsightapi/jsight-api-core/catalog"
+	"github.com/jsightapi/jsight-api-core/directive"
 	"github.com/jsightapi/jsight-api-core/jerr"
 )
 
@@ -92,7 +93,14 @@ func (core *JApiCore) setPathVariablesToCatalog() *jerr.JApiError {
 					}
 				}
 				if b.Len() != 0 {
-					hi.SetPathVariables(b.Build())
+					pv := b.Build()
+					// The builder does not report a schema which cannot be compiled (e.g. a
+					// reference to an undefined type, an example that violates its rule);
+					// without this check the error appears only when the catalog is serialised.
+					if err := pv.Schema.Compile(); err != nil {
+						return v, core.pathDirectiveOf(pp).KeywordError(err.Error())
+					}
+					hi.SetPathVariables(pv)
 				}
 			}
 			return v, nil
@@ -103,6 +111,23 @@ func (core *JApiCore) setPathVariablesToCatalog() *jerr.JApiError {
 	}
 
 	return nil
+}
+
+// pathDirectiveOf returns the Path directive which describes one of the given path parameters.
+func (core *JApiCore) pathDirectiveOf(pp []PathParameter) directive.Directive {
+	for i := range core.rawPathVariables {
+		if core.rawPathVariables[i].imitated {
+			continue
+		}
+		for _, p := range core.rawPathVariables[i].parameters {
+			for _, wanted := range pp {
+				if p == wanted {
+					return core.rawPathVariables[i].pathDirective
+				}
+			}
+		}
+	}
+	return core.rawPathVariables[0].pathDirective
 }
 
 func (core *JApiCore) checkPathSchema(s *jschema.JSchema) error {
